@@ -682,5 +682,5 @@ def run(ctx):
     ctx.guarded(r, r_canvas_state)
     r = ctx.rule("R10", "a cursor pixel reaches world space only through self.image_size.transform_point of the cursor's own coordinates", 7)
     ctx.guarded(r, r10_cursor_to_world)
-    r = ctx.rule("R11", "in immediate mode a drag ends only with the cursor state (never because the image size changed)", 4)
+    r = ctx.rule("R11", "in immediate mode a drag ends only with the cursor state (never because the image size changed)", 2)
     ctx.guarded(r, r11_drag_ends_with_the_button)
